@@ -1038,9 +1038,14 @@ impl Element {
                     AttrPrefixKind::Normal => match &mut element {
                         ElementKind::Normal { attributes, .. } => {
                             if let AttrPrefixParseResult::Value(value) = attr_value {
+                                // (`model:my-value` is stored camel-cased: a plain `my-value` is the same property)
                                 if attributes
                                     .iter()
-                                    .find(|x| x.name.name_eq(&attr_name))
+                                    .find(|x| {
+                                        x.name.name_eq(&attr_name)
+                                            || (matches!(x.prefix, NormalAttributePrefix::Model(..))
+                                                && x.name.name == dash_to_camel(&attr_name.name))
+                                    })
                                     .is_some()
                                 {
                                     ps.add_warning(
@@ -1397,9 +1402,13 @@ impl Element {
                     AttrPrefixKind::Model(prefix_location) => match &mut element {
                         ElementKind::Normal { attributes, .. } => {
                             if let AttrPrefixParseResult::Value(value) = attr_value {
+                                // (the name of a `model:` attribute is camel-cased: `my-value` is the same property)
                                 if attributes
                                     .iter()
-                                    .find(|x| x.name.name_eq(&attr_name))
+                                    .find(|x| {
+                                        x.name.name_eq(&attr_name)
+                                            || dash_to_camel(&x.name.name) == attr_name.name
+                                    })
                                     .is_some()
                                 {
                                     ps.add_warning(
